@@ -18,6 +18,10 @@ class Ms(State):
     total: int
     ids: Sequence[int]
 
+    def __bool__(self) -> bool:
+        # a State is free to define its own truth value (think of a counter that is falsy while it counts nothing)
+        return False
+
 
 class Mr(State):
     """replace-on-conflict metric (default merge)"""
@@ -46,7 +50,29 @@ class MergeBoom(Exception):
     pass
 
 
-def merge_fn(kind: str):
+class FalsyCallable(list):
+    """a callable object whose truth value is False (an - empty - pipeline of steps that is itself the merge strategy)"""
+
+    def __init__(self, fn):
+        super().__init__()
+        self.fn = fn
+
+    def __call__(self, a, b):
+        return self.fn(a, b)
+
+
+def merge_fn(kind: str, form: str | None = None):
+    fn = _merge_fn(kind)
+    if fn is not None and form == "falsy-object":
+        return FalsyCallable(fn)
+    if fn is not None and form == "partial":
+        import functools
+
+        return functools.partial(lambda _tag, a, b: fn(a, b), "tag")
+    return fn
+
+
+def _merge_fn(kind: str):
     if kind == "concat":
         return lambda a, b: Mx(ids=(*a.ids, *b.ids))
     if kind == "sum":
@@ -67,6 +93,14 @@ def view_merge(current, received):
     if isinstance(received, Ms):
         return Ms(total=current.total + received.total, ids=(*current.ids, *received.ids))
     return received
+
+
+VIEW_MERGE_OBJECT = FalsyCallable(view_merge)
+
+
+def view_merge_for(name: str):
+    """the merged view is asked for with a plain function or with a falsy callable object, alternating by scope"""
+    return VIEW_MERGE_OBJECT if sum(map(ord, name)) % 2 else view_merge
 
 
 def plain(value):
